@@ -27,7 +27,7 @@ from checks import concshared as cs
 PID = "C06"
 OBLIGATION_FILES = ["Conc/SkelObligationsC06.v"]
 OBLIGATIONS = ["skeleton_conforms", "closable_senders_covered", "lock_sections_ranked", "attribution_closed",
-               "invocation_drops_cancel_timer", "peer_close_bounds_pending_write"]
+               "invocation_drops_cancel_timer", "peer_close_bounds_pending_write", "no_blocking_send_to_client"]
 
 WHAT = {
     "panic:send-on-closed-channel@router.(*dealer).syncCall.func1":
@@ -94,6 +94,8 @@ def main(tier, replay):
     targeted = None
     if broken:
         focus = cs.focus_functions(rep, ["close", "onLeave", "handleSession", "syncCall"]) if rep.get("ok") else []
+        for fn, _ in rep.get("bad_client_sends") or []:
+            focus.append(fn.split(".")[-1])
         if rep.get("unbounded_peer_closes"):
             focus += ["rawSocketPeer", "writerDone", "SetWriteDeadline"]
         for fn, _ in rep.get("bad_invocation_drops") or []:
@@ -132,7 +134,7 @@ def main(tier, replay):
     if broken and new_failures == 0:
         # the property is no longer shown, and no history outside the known findings fails
         v.violation(dict(property=PID, broken=broken,
-                         skeleton_report={k: rep.get(k) for k in ("obligations", "nonconforming", "detail", "bad_invocation_drops", "unbounded_peer_closes")},
+                         skeleton_report={k: rep.get(k) for k in ("obligations", "nonconforming", "detail", "bad_invocation_drops", "unbounded_peer_closes", "bad_client_sends")},
                          coq_failed=r["failed"][:1500],
                          searched=dict(main=_counts(summary), targeted=_counts(targeted)),
                          what="a per-run obligation of C06 or the translator tie is broken; the targeted "
